@@ -244,7 +244,20 @@ DIRECTED = [
 ]
 
 
+HALF_BUILT = ["a.Select(f)", "a.Select(f).Count()", "g(a.Where(lambda x: x.ok()).First())", "a.m(b)", "ds.Select(lambda e: e.jets.Select(lambda j: j.pt()).Max())", "a.Where(filter=f).Select(g)", "Select(a, f).Count()"]
+
+
+def half_built(ctx):
+    from func_adl.ast.func_adl_ast_utils import change_extension_functions_to_calls
+
+    from ..history import half_built_calls
+
+    half_built_calls(ctx, change_extension_functions_to_calls, HALF_BUILT, "change_extension_functions_to_calls")
+
+
 def shard_main(ctx):
+    if ctx.shard == 2 % ctx.nshards:
+        half_built(ctx)
     if ctx.shard == 0:
         data = datasets(random.Random(3))
         for t in DIRECTED:
@@ -280,4 +293,7 @@ def shard_main(ctx):
 
 
 def replay(ctx, witness):
+    if witness.get("half_built"):
+        half_built(ctx)
+        return
     judge(ctx, astx.parse_expr(witness["query"]), datasets(random.Random(3)), witness.get("info", {}))
